@@ -310,7 +310,7 @@ func (e *env) onCurve(c *mon.Case, x, y *big.Int) {
 }
 
 func decode(x *mon.Ctx) {
-	e := setup(x, x.Scale(12, 48))
+	e := setup(x, x.Scale(12, 48), true)
 	if !e.ps.smallXok || !e.ps.smallYok {
 		x.HarnessError("point search found no point with x+p < 2^256 / y+p < 2^256")
 	}
@@ -336,7 +336,7 @@ func decode(x *mon.Ctx) {
 		e.onCurve(c, P.X, new(big.Int).Neg(P.Y))
 		e.onCurve(c, P.X, sub(P.Y, ec.P))
 	}
-	for _, p := range e.ps.all {
+	for _, p := range append(append([]*npoint{}, e.ps.all...), e.ps.sparse...) {
 		if p.p.Inf {
 			continue
 		}
